@@ -525,6 +525,7 @@ func (h *verifHarness) exec(line string) bool {
 	case ws[0] == "close" && len(ws) == 1:
 		res = h.rpc(func() error { return h.srv.Close(ctx) })
 		h.closed = true
+		h.revived = false
 		if len(h.calls) != 0 {
 			h.out.Fail("close-calls-fs", verifJoin(h.calls))
 		}
